@@ -54,7 +54,7 @@ CHECKS = {
         ref="4 C07"),
     "C08": dict(
         cat="other",
-        technique="per-function MIR rules (set of `?`-validated slots, dominance of the success site, aggregate field origins) over all 2^n-1 subsets x 5 operations of every generated group, plus rustc layout_of equality With_S == group",
+        technique="path-sensitive case summaries of the MIR of every conversion (abstract interpretation over a term domain: symbolic Option slots split on their presence tests; success iff every requested slot is Some) over all 2^n-1 subsets x 5 operations of every generated group, filler rules, plus rustc layout_of equality With_S == group",
         text="`succeeds iff every requested trait was enabled` splits into `slot is Some iff enabled` (fillers: enable_*, Default, fill_table per implementing type) and "
              "`operation succeeds iff all requested slots are Some` (exactly the requested slots validated, success dominated by all validations, nothing else decides); "
              "both are exact structural facts, enumerated exhaustively over the powerset for groups with 0..2 (quick) / 0..4 (thorough) optional traits.",
@@ -95,7 +95,7 @@ CHECKS = {
         ref="4 C10"),
     "C11": dict(
         cat="other",
-        technique="symbolic execution of each operation's success path in an affine domain (linear expressions over data/len/index, fields re-versioned by reserve) compared with Vec's specification; dominance of index guards; positional raw-parts rules for the stored functions",
+        technique="path-sensitive case summaries of each operation's MIR with affine normalisation of addresses and lengths (linear expressions over data/len/index, fields re-versioned by reserve, local helpers stepped into) compared with Vec's specification; canonical index guards; positional raw-parts rules for the stored functions",
         text="per-operation summaries (where is written/read/copied, how many elements, new length, which guard) are decided exactly by abstract interpretation "
              "of the MIR and compared with Vec's documented semantics; growth/free are shown to go through the stored functions with (data, len, capacity) in order. "
              "Equality of contents over arbitrary operation sequences is NOT executed: it is the inductive consequence of each operation preserving "
@@ -104,7 +104,7 @@ CHECKS = {
         ref="4 C11"),
     "C12": dict(
         cat="other",
-        technique="MIR origin tracing (def-use) and discriminant-arm rules over every function that builds/rebuilds slice views or converts option/result/tuple forms",
+        technique="MIR origin tracing (def-use) over every function that builds/rebuilds slice views; path-sensitive case summaries (variant V -> variant V, payload moved once) of every option/result/tuple conversion and helper method",
         text="these functions are straight-line field shuffles or single discriminant matches, so shape rules are exact for every input: "
              "(as_ptr,len) of one argument in, (data,len) of one view out, no branch on length, from_utf8 verdict returned unchanged and unchecked "
              "conversions only in unsafe fn, variant V -> V with payload field i moved to field i and no calls.",
@@ -112,7 +112,7 @@ CHECKS = {
         ref="4 C12"),
     "C13": dict(
         cat="other",
-        technique="discriminant-arm dominance rules on the int-result helpers, NonZeroI32 type contract + constant/non-zero dataflow on IntError impls, out-parameter wiring rules on every generated int-result method",
+        technique="path-sensitive case summaries of the int-result helpers and of every IntError::into_int_err (per input case: effects in order and returned term), NonZeroI32 type contract, out-parameter wiring rules on every generated int-result method",
         text="which arm writes/reads the slot and which constant it returns is visible in the CFG of the four helper functions; shipped error types are "
              "shown never to encode to 0 by a small non-zero dataflow; the generated plumbing is checked per method on the corpus and repository traits.",
         note="trusts NonZeroI32/MaybeUninit semantics; user-defined IntError impls outside the repository are out of scope",
@@ -127,7 +127,7 @@ CHECKS = {
         ref="4 C14"),
     "C15": dict(
         cat="other",
-        technique="loop-body path enumeration and dominance rules over MIR (exactly-one call per item, counter update before it, exit on false/exhaustion), exactly-once rules on trampolines, arm rules on the iterator protocol",
+        technique="loop-body path enumeration and dominance rules over MIR (exactly-one call per item, counter update before it, exit on false/exhaustion) or closure summaries for short-circuiting internal iteration; exactly-once rules on trampolines; case summaries of the iterator protocol",
         text="loop-body invariance turns `for every item sequence and stop position` into a finite set of paths through each feeding loop; trampolines, "
              "pair constructions and the CIterator protocol are straight-line or single-match functions, so shape rules decide them for every input.",
         note="behaviour of the wrapped closure/iterator is outside the property; trusts Iterator::next / MaybeUninit semantics",
@@ -143,7 +143,7 @@ CHECKS = {
         ref="4 C19"),
     "C20": dict(
         cat="other",
-        technique="finite-domain evaluation of the verdict functions' MIR over their complete discriminant domains, call-argument order by origin tracing, StableAbi impl facts for every generated ADT in a layout_checks build",
+        technique="exhaustive evaluation of the verdict functions' MIR over their complete finite input domains by path-sensitive case summaries (two feature configurations), comparison-call argument order from the summaries, StableAbi impl facts for every generated ADT in a layout_checks build",
         text="four claimed clauses: verdict combination tables (3x3, exhaustive), compare_layouts over {None,Some}^2 x {Ok,Err} (exhaustive) with the "
              "comparison's argument order, every generated/runtime ADT carries a layout description, nothing hides fields from it. NOT decided: whether "
              "abi_stable's comparison itself distinguishes every single-edit interface change (third-party run-time comparison).",
